@@ -37,6 +37,8 @@ THEOREMS = [
     "Opacus.C10.bmm_refines_unsplit",
     "Opacus.C10.optZeroGrad_idempotent",
     "Opacus.C10.modZeroGrad_idempotent",
+    "Opacus.C10.generated_iter_eq_model",
+    "Opacus.C10.generated_iter_partition_bounded",
 ]
 RULE = (
     "sampler cases = (n, max_physical) with n in 0..200; engine cases = (optimizer kind, accountant, logical batch sizes incl. 0, max_physical) "
@@ -44,6 +46,7 @@ RULE = (
     "(thorough: every (n, max) with n ≤ 64, max ≤ 16)"
 )
 TRUSTED = [
+    "the translator vharness/props/c10_trans.py (Python `ast` -> what BatchSplittingSampler.__iter__ yields for one logical batch, with the skip signal sent before each physical batch; subset in its docstring, anything else is reported as a broken tie) is trusted to render the generator faithfully; numpy.array_split and math.ceil(a / b) on ints below 2^53 are rendered as the model's takeChunks/splitSizes and ceilDiv (numpy is outside the repository; that rendering is what the sampler correspondence compares on every run)",
     "token setting: clip factors are exactly 1 and sums are integer vectors, so split and unsplit runs are compared exactly (float summation order is C03's tolerance question)",
     "DataLoader with num_workers=0 advances the batch sampler lazily (one signal right before each physical batch); prefetching only queues signals earlier, FIFO order is what the machine models",
 ]
@@ -241,7 +244,14 @@ def sampler_kind_cases(ctx):
             ctx.property_failure(res[0], res[1], dict(res[2], failing_input=case))
 
 
+def regenerate(ctx):
+    from .. import regen
+    from . import c10_trans as T
+    regen.regenerate(ctx, T, "Opacus.Generated.BatchSplit", "BatchSplittingSampler.__iter__ (utils/batch_memory_manager.py)")
+
+
 def run(ctx):
+    regenerate(ctx)
     with rig.default_dtype(torch.float64):
         sampler_cases(ctx)
         engine_cases(ctx)
